@@ -252,9 +252,6 @@ class WebpageUnavailablePenalty(AbstractReward, discriminator="webpage-unavailab
         ]
         web_browser_state = access_from_nested_dict(state, self.location_in_state)
 
-        if web_browser_state is NOT_PRESENT_IN_STATE:
-            self.reward = 0.0
-
         # check if the most recent action was to request the webpage
         request_attempted = last_action_response.request == [
             "network",
